@@ -527,6 +527,9 @@ func main() {
 		}
 	case "C04":
 		emit(g.c04Script(900, true))
+		// bursts the application reads completely only afterwards: the whole backlog goes through the queue
+		emit(g.c04Script(120, true))
+		emit(g.c04Script(40, true))
 		for n < *budget {
 			emit(g.c04Script(5+g.r.Intn(60), false))
 		}
